@@ -1,6 +1,6 @@
 #!/bin/bash
 # usage: tools/process_r7.sh <cNN> <check ids...>  — copies /tmp/seed-out-<cNN>r7 to pending, confirms both seeds, tries them against the named checks
-c=$1; shift; cr=${c}r7
+c=$1; shift; cr=${c}${ROUND:-r7}
 cd /verif
 mkdir -p seeded/pending/$cr; cp /tmp/seed-out-$cr/{change,demo,notes}* seeded/pending/$cr/
 ( tools/confirm_seed.sh $cr 1; tools/confirm_seed.sh $cr 2 ) 2>&1 | grep -v "conda\|^package\|suite of" | sed "s/^/$cr: /"
